@@ -106,6 +106,28 @@ func buildSkeletons(c *Ctx) ([]skeleton, error) {
 			}
 		}
 		sort.Strings(unknown)
+		// the template text uses the tree's own field names: alias renamed fields (rename.go) under their current names
+		if len(c.Renamed) > 0 {
+			var alias func(v interface{})
+			alias = func(v interface{}) {
+				switch x := v.(type) {
+				case map[string]interface{}:
+					for ref, cur := range c.Renamed {
+						if val, ok := x[ref]; ok {
+							x[cur] = val
+						}
+					}
+					for _, vv := range x {
+						alias(vv)
+					}
+				case []interface{}:
+					for _, vv := range x {
+						alias(vv)
+					}
+				}
+			}
+			alias(gen)
+		}
 		src, err := execTpl(text, gen)
 		out = append(out, skeleton{name: name, pkg: pkg, file: file, src: src, err: err, unknown: unknown})
 	}
